@@ -99,7 +99,7 @@ fn complete_line<H: Helper>(
         s.out.beep()?;
         Ok(None)
     } else if CompletionType::Circular == config.completion_type() {
-        let mark = s.changes.begin();
+        let mut mark = s.changes.begin();
         // Save the current edited line before overwriting it
         let backup = s.line.as_str().to_owned();
         let backup_pos = s.line.pos();
@@ -123,6 +123,9 @@ fn complete_line<H: Helper>(
             s.refresh_line()?;
 
             cmd = s.next_cmd(input_state, rdr, true, true)?;
+            // a key that leaves vi insert mode closes every open group (`changes.end()`), also the
+            // ones below the mark: what lies above the lowest height reached is ours
+            mark = mark.min(s.changes.len());
             match cmd {
                 Cmd::Complete => {
                     i = (i + 1) % (candidates.len() + 1); // Circular
@@ -378,7 +381,7 @@ fn reverse_incremental_search<H: Helper, I: History>(
     if history.is_empty() {
         return Ok(None);
     }
-    let mark = s.changes.begin();
+    let mut mark = s.changes.begin();
     // Save the current edited line (and cursor position) before overwriting it
     let backup = s.line.as_str().to_owned();
     let backup_pos = s.line.pos();
@@ -399,6 +402,9 @@ fn reverse_incremental_search<H: Helper, I: History>(
         s.refresh_prompt_and_line(&prompt)?;
 
         cmd = s.next_cmd(input_state, rdr, true, true)?;
+        // a key that leaves vi insert mode closes every open group (`changes.end()`), also the
+        // ones below the mark: what lies above the lowest height reached is ours
+        mark = mark.min(s.changes.len());
         if let Cmd::SelfInsert(_, c) = cmd {
             search_buf.push(c);
         } else {
